@@ -33,13 +33,13 @@ THEOREMS = ["Cog.Builder." + t for t in [
     "C17_builder_rule_preserves", "C17_option_rule_preserves", "C17_seq", "C17_seq_counterexample",
     "C17_seq_counterexample_shared_pointer", "C17_seq_counterexample_unfold_after_index",
     "C17_frame_norules_partial", "C17_frame_norules_counterexample", "C17_frame_counterexample_shared_pointer",
-    "C17_option_frame", "C17_option_frame_counterexample", "C17_seq_counterexample_sf_opts_after_append",
+    "C17_option_frame", "C17_option_frame_counterexample", "C17_seq_counterexample_sf_opts_after_append", "C17_seq_counterexample_only_first_assignment", "C17_seq_counterexample_promote_first_argument_only",
     "C17_derived_WT", "C17_end_to_end", "C17_derived_option_fresh", "C17_array_to_append_preserves_fresh",
     "C17_map_to_index_preserves_fresh", "C17_unfold_boolean_preserves_fresh",
 ]]
 PROPOSED = os.path.join(WORK, "proposed_findings_C17.json")
 WITNESSES = ["dup-option-default", "dup-builder-default", "dismissed", "rename-args-constraint",
-             "promote-array-to-append", "merge-rename-arguments", "map-index-unfold", "sf-opts-after-append"]
+             "promote-array-to-append", "merge-rename-arguments", "map-index-unfold", "sf-opts-after-append", "add-assignment-array-to-append", "map-index-promote"]
 GO_ONLY_PINNED = ["compose-then-initialize"]
 FILES = HARNESS_BASE + ["vir_builders.go", "c16_*.go", "c17_*.go"]
 
